@@ -8,7 +8,7 @@ import itertools
 from common import call, chunks, enc, gen, main, rng_of, vlib
 
 from predicate import predicate as PP
-from predicate.standard_predicates import all_p, any_p, comp_p, fn_p, ge_p, is_int_p, is_list_p, is_set_of_p, is_str_p, tee_p
+from predicate.standard_predicates import all_p, any_p, comp_p, fn_p, ge_p, gt_p, le_p, lt_p, is_int_p, is_list_p, is_set_of_p, is_str_p, tee_p
 
 LOG = []
 
@@ -326,6 +326,42 @@ def search(payload):
                 fails.append({"case": "(~p)(x) differs from not p(x)", "p": repr(a_), "x": repr(x), "p(x)": repr(pv), "result": repr(got_), "expected": repr(exp_),
                               "built_node": repr(na)})
                 break
+    # LARGE collections and LONG chains (beyond any small enumeration)
+    big_colls = [([1] * 300 + [1.0], "all", "type(v) is int", lambda v: type(v) is int), ([1.0] + [1] * 300, "all", "type(v) is int", lambda v: type(v) is int),
+                 (list(range(400)) + [0.0], "all", "type(v) is int", lambda v: type(v) is int), ([0] * 1000 + [5], "any", "v > 3", lambda v: v > 3),
+                 (tuple([True] * 70 + [1]), "all", "type(v) is bool", lambda v: type(v) is bool), (list(range(70)) + [2.0], "any", "type(v) is float", lambda v: type(v) is float)]
+    for items, qname, bname, beh in big_colls:
+        n += 1
+        del log[:]
+        q = all_p if qname == "all" else any_p
+        k, r = call(q(atom("A", beh)), items)
+        vals = [beh(v) for v in items]
+        exp = all(vals) if qname == "all" else any(vals)
+        stop = next((i for i, b in enumerate(vals) if b == (qname == "any")), None)
+        limit = len(items) if stop is None else stop + 1
+        if k != "ok" or r != exp or len(log) > limit:
+            fails.append({"quantifier": qname, "element_predicate": bname, "items": f"{len(items)} items, e.g. {items[:2]!r} ... {items[-2:]!r}", "result": repr(r), "expected": exp,
+                          "calls": len(log), "at_most": limit})
+    n += 1
+    big_range = range(1_000_005)
+    if call(any_p(ge_p(1_000_002)), big_range) != ("ok", True) or call(all_p(le_p(1_000_003)), big_range) != ("ok", False):
+        fails.append({"quantifier": "any/all", "items": "range(1_000_005)", "result": repr((call(any_p(ge_p(1_000_002)), big_range), call(all_p(le_p(1_000_003)), big_range))),
+                      "expected": "(True, False)"})
+    import functools
+    import operator
+    for k_ in (5, 30, 60, 130):
+        for opname, fold, guard_, rest, x, want in (("and", operator.and_, is_int_p, lambda i: gt_p(-i), "abc", False), ("or", operator.or_, is_str_p, lambda i: lt_p(-i), "abc", True)):
+            n += 1
+            node = functools.reduce(fold, [guard_] + [rest(i) for i in range(k_)])
+            got = call(node, x)
+            if got != ("ok", want):
+                fails.append({"case": f"left-nested chain of {k_ + 1} operands joined by {opname}: the first operand decides, nothing after it may be evaluated",
+                              "x": repr(x), "result": repr(got), "expected": want})
+        del log[:]
+        order = functools.reduce(operator.and_, [atom(f"a{i}", True) for i in range(k_)])
+        call(order, 0)
+        if [c[0] for c in log] != [f"a{i}" for i in range(k_)]:
+            fails.append({"case": f"evaluation order of a {k_}-operand & chain", "calls": [c[0] for c in log][:8], "expected_first": [f"a{i}" for i in range(8)]})
     # nested comp_p: comp_p(f, comp_p(g, p))(x) is p(g(f(x)))
     for f_, g_, x, want in ((len, str, "abc", "3"), (len, str, [7, 8, 9], "3"), (str, len, 12345, 5), (lambda v: v + 1, lambda v: v * 2, 3, 8), (lambda v: v * 2, lambda v: v + 1, 3, 7)):
         n += 1
